@@ -27,16 +27,18 @@ def main():
     ap.add_argument('--name')
     ap.add_argument('--skip-confirm', action='store_true')
     a = ap.parse_args()
-    src = a.src or '/tmp/seed/' + a.id
     name = a.name or a.id
+    src = a.src or '/tmp/seed/' + a.id
+    if a.skip_confirm and not os.path.exists(os.path.join(src, 'patch.diff')):
+        src = os.path.join(VERIF, 'seeded', name)  # re-evaluation of a stored seed
     patch = os.path.join(src, 'patch.diff')
     assert os.path.exists(patch), 'no patch.diff in ' + src
     rc, out = sh('git -C /repo status --porcelain --untracked-files=no')
     assert out.strip() == '', '/repo has uncommitted changes'
     # demo files = untracked *_test.go in the author's worktree
-    rc, out = sh('git status --porcelain', cwd=src)
+    rc, out = sh('git status --porcelain', cwd=src) if os.path.isdir(os.path.join(src, '.git')) or os.path.exists(os.path.join(src, '.git')) else (0, '')
     demos = [l[3:].strip() for l in out.splitlines() if l.startswith('??') and l.strip().endswith('_test.go') and '/' in l[3:]]
-    assert demos, 'no demo *_test.go found in the worktree (untracked)'
+    assert demos or a.skip_confirm, 'no demo *_test.go found in the worktree (untracked)'
     meta = {'id': name, 'property': a.id, 'source': 'independent sub-agent, worktree ' + src, 'demo_files': demos, 'ran': []}
     touched = sorted({l.split(' b/')[1].strip() for l in open(patch) if l.startswith('diff --git')})
     meta['touches'] = touched
@@ -108,11 +110,12 @@ def main():
         meta['detected_by'] = [c for c, r in results.items() if r['exit'] == 1]
         dst = os.path.join(VERIF, 'seeded', name)
         os.makedirs(dst, exist_ok=True)
-        shutil.copy(patch, os.path.join(dst, 'patch.diff'))
-        for d in demos:
-            shutil.copy(os.path.join(src, d), os.path.join(dst, os.path.basename(d)))
-        if os.path.exists(os.path.join(src, 'NOTES.md')):
-            shutil.copy(os.path.join(src, 'NOTES.md'), os.path.join(dst, 'NOTES.md'))
+        if os.path.abspath(src) != os.path.abspath(dst):
+            shutil.copy(patch, os.path.join(dst, 'patch.diff'))
+            for d in demos:
+                shutil.copy(os.path.join(src, d), os.path.join(dst, os.path.basename(d)))
+            if os.path.exists(os.path.join(src, 'NOTES.md')):
+                shutil.copy(os.path.join(src, 'NOTES.md'), os.path.join(dst, 'NOTES.md'))
         old = {}
         if os.path.exists(os.path.join(dst, 'meta.json')):
             old = json.load(open(os.path.join(dst, 'meta.json')))
